@@ -152,32 +152,64 @@ def run(rep: Report, tier: str) -> None:
 	# every field written for a row reaches the symbol built from it, on every way out of the branch that reads the row: the four fields of a reference row
 	# are written from four different attributes (node, decl, types, via), so a way out whose result consults fewer of them cannot restore them all —
 	# unless the conditions known there say two of them are equal (`data['origin'] == data['via']`: the symbol is its own predecessor)
-	rf = rep.rule('C14/every-written-field-reaches-the-restored-symbol', 'on every return of deserialize the returned symbol is computed from every key serialize wrote for that record shape, except a key the path condition equates with another one that is used', floor=1)
+	rf = rep.rule('C14/every-written-field-reaches-the-restored-symbol', 'on every return of deserialize the returned symbol is computed from every key serialize wrote for that record shape, except a key the path condition equates with another one that is used', floor=2)
+	import copy as _copy
+
+	def disc_pol(conds) -> list[bool]:
+		return [p_ for a, p_ in conds if isinstance(a, ast.Compare) and unparse(a.left) == f"{dparam}['class']" and const_str(a.comparators[0]) == tested]
+
+	def keys_of(fn, e: ast.AST, param: str, pol: bool | None, depth: int = 0, seen: frozenset = frozenset()) -> set[str]:
+		"""row keys the value of e (an expression inside fn) is computed from: `param['k']` reads; a local stands for the value(s) it is given — the one
+		assignment compatible with the discriminator truth `pol`, destructuring assignments included; the row handed as a whole to a same-class helper
+		contributes the keys EVERY return of that helper is computed from"""
+		out: set[str] = set()
+		if depth > 6:
+			return out
+		for n in ast.walk(e):
+			if isinstance(n, ast.Subscript) and isinstance(n.value, ast.Name) and n.value.id == param and const_str(n.slice) is not None:
+				out.add(const_str(n.slice))
+			elif isinstance(n, ast.Name) and isinstance(n.ctx, ast.Load) and n.id != param and (fn.name, n.id) not in seen:
+				defs_ = [a for a in ast.walk(fn.node) if isinstance(a, (ast.Assign, ast.AnnAssign)) and a.value is not None and any(isinstance(x, ast.Name) and x.id == n.id for t in (a.targets if isinstance(a, ast.Assign) else [a.target]) for x in ast.walk(t))]
+				if pol is not None:
+					defs_ = [a for a in defs_ if (not pol) not in disc_pol(atoms(fn.node, a))]
+				if len(defs_) == 1:
+					out |= keys_of(fn, defs_[0].value, param, pol, depth + 1, seen | {(fn.name, n.id)})
+			elif isinstance(n, ast.Call) and isinstance(n.func, ast.Attribute) and isinstance(n.func.value, ast.Name) and n.func.value.id in ('self', 'cls') and fn.cls is not None:
+				g = fn.cls.method(n.func.attr)
+				if g is None or depth > 3:
+					continue
+				gparams = [a.arg for a in g.node.args.posonlyargs + g.node.args.args]
+				gparams = gparams[1:] if gparams and gparams[0] in ('self', 'cls') else gparams
+				for gp, arg in list(zip(gparams, n.args)) + [(kw.arg, kw.value) for kw in n.keywords if kw.arg]:
+					if isinstance(arg, ast.Name) and arg.id == param:
+						rets = [r_.value for r_ in walk_no_nested(g.node) if isinstance(r_, ast.Return) and r_.value is not None]
+						if rets:
+							out |= set.intersection(*[keys_of(g, r_, gp, None, depth + 1, seen) for r_ in rets])
+		return out
+
 	for ret in [n for n in walk_no_nested(d.node) if isinstance(n, ast.Return) and n.value is not None]:
 		cond = atoms(d.node, ret)
-		disc = [p_ for a, p_ in cond if isinstance(a, ast.Compare) and unparse(a.left) == f"{dparam}['class']" and const_str(a.comparators[0]) == tested]
-		if len(disc) != 1:
-			rf.skip(f'return:{unparse(ret.value)[:40]}', (SER, ret.lineno), 'the record shape is not known at this return')
+		disc = disc_pol(cond)
+		if len(disc) > 1:
+			rf.skip(f'return:{unparse(ret.value)[:40]}', (SER, ret.lineno), 'contradictory discriminator tests at this return')
 			continue
-		shape = tested if disc[0] else (other[0] if len(other) == 1 else None)
-		if shape not in written:
-			continue
-		val = expand_use(d.node, ret.value, 6)
-		if any(isinstance(n, ast.Name) and n.id == dparam and isinstance(n.ctx, ast.Load) for n in ast.walk(val)) and not subscripted_keys(val, dparam):
-			rf.skip(f'return:{unparse(ret.value)[:40]}', (SER, ret.lineno), 'the row is handed to a helper as a whole')
-			continue
-		used = subscripted_keys(val, dparam) | value_keys(val)
-		missing = written[shape][0] - used - {'class'}
-		for a, p_ in cond:
-			if p_ and isinstance(a, ast.Compare) and len(a.ops) == 1 and isinstance(a.ops[0], ast.Eq):
-				lk = subscripted_keys(expand_use(d.node, a.left, 6), dparam)
-				rk = subscripted_keys(expand_use(d.node, a.comparators[0], 6), dparam)
-				if len(lk) == 1 and len(rk) == 1:
-					if lk <= used:
-						missing -= rk
-					if rk <= used:
-						missing -= lk
-		rf.check(not missing, f'{shape}:return:{unparse(ret.value)[:40]}', (SER, ret.lineno), f'this way out of deserialize builds the {shape} row\'s symbol without data[{(sorted(missing) or ['?'])[0]!r}]' + (f' (it uses {sorted(used)}; conditions known here: {[(unparse(a)[:50], p_) for a, p_ in cond][:4]})' if missing else '') + ': the field is taken from somewhere else (the origin symbol, a default), which coincides only for some rows — e.g. a parameter or a variable of an imported module keeps the declaration of its TYPE instead of its own, so `decl`-based decisions (is it a parameter, a class variable, which scope) differ between a warm and a cold run', unparse(ret)[:160])
+		# a return behind the if / else (the two branches only build the symbol) is reached for both shapes: judged once per shape
+		for pol in (disc if disc else [True, False]):
+			shape = tested if pol else (other[0] if len(other) == 1 else None)
+			if shape not in written:
+				continue
+			used = keys_of(d, ret.value, dparam, pol)
+			missing = written[shape][0] - used - {'class'}
+			for a, p_ in cond:
+				if p_ and isinstance(a, ast.Compare) and len(a.ops) == 1 and isinstance(a.ops[0], ast.Eq):
+					lk = keys_of(d, a.left, dparam, pol)
+					rk = keys_of(d, a.comparators[0], dparam, pol)
+					if len(lk) == 1 and len(rk) == 1:
+						if lk <= used:
+							missing -= rk
+						if rk <= used:
+							missing -= lk
+			rf.check(not missing, f'{shape}:return:{unparse(ret.value)[:40]}', (SER, ret.lineno), f'this way out of deserialize builds the {shape} row\'s symbol without data[{(sorted(missing) or ["?"])[0]!r}]' + (f' (it uses {sorted(used)}; conditions known here: {[(unparse(a)[:50], p_) for a, p_ in cond][:4]})' if missing else '') + ': the field is taken from somewhere else (the origin symbol, a default), which coincides only for some rows — e.g. a parameter or a variable of an imported module keeps the declaration of its TYPE instead of its own, so `decl`-based decisions (is it a parameter, a class variable, which scope) differ between a warm and a cold run', unparse(ret)[:160])
 	pm_d = parent_map(dfi)
 	# reader sites in deserialize and in the private helpers it calls (their parameters replaced by the call arguments): the key's value may be handed to
 	# a helper that parses it (`self._node_by(data['types'])` -> `ModuleDSN.parsed(dsn)` inside). A helper is inlined once (for the first call site met),
